@@ -6,7 +6,7 @@
     return as given and are about everything after parsing — the comparison, the closures, the two functions. *)
 From Coq Require Import ZArith List Bool.
 From Low Require Import Lib.Lex Model.Semver Model.Vers Spec.VersSpec Spec.VersPrint
-  Proofs.SemverOrder Proofs.VersProofs Proofs.SemverNoPanic Proofs.SemverPrintParse Proofs.SemverRangeParse.
+  Proofs.SemverOrder Proofs.VersProofs Proofs.SemverNoPanic Proofs.SemverPrintParse Proofs.SemverRangeParse Proofs.SemverParseInv.
 Import ListNotations.
 Open Scope Z_scope.
 
@@ -152,6 +152,18 @@ Print Assumptions X01_Check_release_outside_contract.
 Theorem X01_Parse_print : forall v, wf_version v = true -> Parse (version_string v) = Some v.
 Proof. exact Parse_print. Qed.
 Print Assumptions X01_Parse_print.
+
+(** ... and it accepts nothing else: the model of semver.Parse is exactly the inverse of Version.String() on the
+    well-formed versions (numbers below 2^64, numeric identifiers without leading zeros, non-empty alphanumeric identifiers) *)
+Theorem X01_Parse_characterised : forall s v, Parse s = Some v <-> wf_version v = true /\ s = version_string v.
+Proof. exact Parse_iff. Qed.
+Print Assumptions X01_Parse_characterised.
+
+(** for parsed versions, equivalent in the precedence order = equal up to build metadata *)
+Theorem X01_parsed_precedence_eq : forall a b v w, Parse a = Some v -> Parse b = Some w ->
+  (prec v w = Eq <-> v_major v = v_major w /\ v_minor v = v_minor w /\ v_patch v = v_patch w /\ v_pre v = v_pre w).
+Proof. exact parsed_prec_eq. Qed.
+Print Assumptions X01_parsed_precedence_eq.
 
 Theorem X01_range_groups_print : forall gs, sgroups_ok gs = true ->
   range_groups (join or_sep (map group_string gs)) = Ok (strip gs).
